@@ -430,3 +430,143 @@ func TestSha2pc(t *testing.T) {
 func TestReplay(t *testing.T) { ev.Replay(t, ev.Get(prop)) }
 
 var _ = bytes.Equal
+
+// ---------------------------------------------------------------------------
+// Deviating evaluator: the OT range request.  The evaluator asks the garbler
+// to transfer the labels of wires [offset, offset+count).  Whatever range is
+// requested, the garbler must never run the OT on one of its OWN input wires:
+// it already sent one label of each of them in the clear, so the evaluator
+// would hold both labels of a wire.
+
+// RangeCase is a session with a scripted evaluator.
+type RangeCase struct {
+	Circ   gen.Circ `json:"circ"`
+	X      string   `json:"x"`
+	Offset int      `json:"offset"`
+	Count  int      `json:"count"`
+	Seed   uint64   `json:"seed"`
+}
+
+func genRangeCase(t *rapid.T) RangeCase {
+	o := gen.CircOpts{MinArgs: 2, MaxArgs: 2, MaxWidth: 8, MaxGates: 30, MaxOuts: 2, MaxOutWidth: 3}
+	c := gen.DrawCirc(t, o)
+	n0, n1 := c.In[0], c.In[1]
+	cs := RangeCase{Circ: c, X: gen.BitsOf(gen.DrawBits(t, n0, "x")), Seed: rapid.Uint64().Draw(t, "seed")}
+	switch rapid.IntRange(0, 5).Draw(t, "rangekind") {
+	case 0: // honest
+		cs.Offset, cs.Count = n0, n1
+	case 1: // everything
+		cs.Offset, cs.Count = 0, n0+n1
+	case 2: // same end, earlier start
+		cs.Offset = rapid.IntRange(0, n0).Draw(t, "offset")
+		cs.Count = n0 + n1 - cs.Offset
+	case 3: // garbler's wires only
+		cs.Offset, cs.Count = 0, n0
+	default:
+		cs.Offset = rapid.IntRange(0, n0+n1).Draw(t, "offset2")
+		cs.Count = rapid.IntRange(0, n0+n1-cs.Offset).Draw(t, "count2")
+	}
+	return cs
+}
+
+func runRange(cs RangeCase) ev.Outcome {
+	c := cs.Circ
+	circ := c.Build()
+	n0, n1 := c.In[0], c.In[1]
+	x := gen.ParseBits(cs.X)
+	if len(x) != n0 || cs.Offset < 0 || cs.Count < 0 {
+		return ev.Outcome{Skip: "malformed case"}
+	}
+	d := xport.NewDuplex(nil, nil)
+	gConn, eConn := p2p.NewConn(d.A), p2p.NewConn(d.B)
+	spy := &spyOT{OT: ot.NewCO(gen.NewDRBG(cs.Seed, 10))}
+	cfg := &env.Config{Rand: gen.NewDRBG(cs.Seed, 1)}
+	var clear []ot.Label // garbler input labels sent in the clear
+	res := xport.RunPair(d,
+		func() ([]*big.Int, error) {
+			return circuit.Garbler(cfg, gConn, spy, circ, bitsToInt(x), false)
+		},
+		func() ([]*big.Int, error) {
+			// Scripted evaluator: honest up to the range request.
+			if _, err := eConn.ReceiveData(); err != nil { // key
+				return nil, err
+			}
+			ng, err := eConn.ReceiveUint32()
+			if err != nil {
+				return nil, err
+			}
+			var label ot.Label
+			var ld ot.LabelData
+			for i := 0; i < ng; i++ {
+				rows, err := eConn.ReceiveUint32()
+				if err != nil {
+					return nil, err
+				}
+				for j := 0; j < rows; j++ {
+					if err := eConn.ReceiveLabel(&label, &ld); err != nil {
+						return nil, err
+					}
+				}
+			}
+			for i := 0; i < n0; i++ {
+				if err := eConn.ReceiveLabel(&label, &ld); err != nil {
+					return nil, err
+				}
+				clear = append(clear, label)
+			}
+			eOT := ot.NewCO(gen.NewDRBG(cs.Seed, 11))
+			if err := eOT.InitReceiver(eConn); err != nil {
+				return nil, err
+			}
+			if err := eConn.SendUint32(cs.Offset); err != nil {
+				return nil, err
+			}
+			if err := eConn.SendUint32(cs.Count); err != nil {
+				return nil, err
+			}
+			if err := eConn.Flush(); err != nil {
+				return nil, err
+			}
+			flags := make([]bool, cs.Count)
+			for i := range flags {
+				flags[i] = true
+			}
+			got := make([]ot.Label, cs.Count)
+			if cs.Count > 0 {
+				if err := eOT.Receive(flags, got); err != nil {
+					return nil, err
+				}
+			}
+			return nil, fmt.Errorf("scripted evaluator stops after the OT")
+		}, 2*time.Second, 60*time.Second)
+	d.Close()
+	_ = res
+	spy.mu.Lock()
+	wires := spy.wires
+	spy.mu.Unlock()
+	honest := cs.Offset == n0 && cs.Count == n1
+	for wi, w := range wires {
+		for i, l := range clear {
+			if l.Equal(w.L0) || l.Equal(w.L1) {
+				return ev.Fail("circuit/ot-on-garbler-input-wire",
+					"the evaluator requested OT wires [%d,%d) (garbler inputs are [0,%d), evaluator inputs [%d,%d)); the garbler ran the OT on a wire (#%d of the request) whose label it had already sent in the clear as its input bit %d: the evaluator can hold both labels of that wire",
+					cs.Offset, cs.Offset+cs.Count, n0, n0, n0+n1, wi, i)
+			}
+		}
+	}
+	cl := "deviating-range"
+	if honest {
+		cl = "honest-range"
+	}
+	served := "ot-refused"
+	if len(wires) > 0 {
+		served = "ot-served"
+	}
+	return ev.OK(!honest && n0 >= 1, cl, served)
+}
+
+func init() { ev.Register("range", runRange) }
+
+func TestRange(t *testing.T) {
+	ev.Check(t, ev.Get(prop), "range", genRangeCase, runRange)
+}
